@@ -166,6 +166,7 @@ struct Slot {
     uint64_t pending_pill_first_gseq = 0;
     bool pill_overflowed = false;
     uint64_t batch_changed_gseq = 0, last_delivery_gseq = 0;
+    uint64_t tb_set_gseq = 0;            // event number at which the current token bucket was set
     uint64_t batch_timer_armed_at = 0;   // simulated time at which the batch time-out timer was last (re)armed; 0 = unknown
     bool batch_timer_exact = false;      // ... and that time is exact (seam cost 0)
     uint64_t tb_refused_gseq = 0;
